@@ -134,6 +134,12 @@ fn run_case(seed: u64, lean: &mut Lean, hist: &mut BTreeMap<String, u64>, sample
                     if has && want != s.orig { s.filtered_seen = true; saw_filtered = true; }
                 }
             }
+            14 => {
+                // journal rotation: later reopens replay a sealed journal that may straddle a flush
+                if let Err(e) = fjall::verif::verif_rotate_journal(dbref!()) { fail!("impl-vs-oracle", "journal rotation failed: {e:?}"); }
+                trace.push("rotate-journal".into());
+                *hist.entry("rotate-journal".into()).or_insert(0) += 1;
+            }
             13 => {
                 drop(ks);
                 kss.clear();
